@@ -6,7 +6,9 @@ import (
 	_ "verif/props/c02"
 	_ "verif/props/c03"
 	_ "verif/props/c06"
+	_ "verif/props/c07"
 	_ "verif/props/c17"
+	_ "verif/props/c18"
 )
 
 func main() { mcx.Main() }
